@@ -90,6 +90,15 @@ func init() {
 	specFuncs["le16"] = func(e *specEnv, args []SV) SV {
 		return SV{V: TV{SSeqI, app("g_enc_le16", e.term(args[0]))}, T: byteSlice}
 	}
+	for _, w := range []string{"16", "32", "64"} {
+		w := w
+		specFuncs["u"+w+"le"] = func(e *specEnv, args []SV) SV {
+			return SV{V: TV{SInt, app("g_le"+w, e.term(args[0]))}}
+		}
+		specFuncs["u"+w+"be"] = func(e *specEnv, args []SV) SV {
+			return SV{V: TV{SInt, app("g_be"+w, e.term(args[0]))}}
+		}
+	}
 	specFuncs["encSig"] = func(e *specEnv, args []SV) SV {
 		return SV{V: TV{SSeqI, app("g_encSig", e.term(args[0]))}, T: byteSlice}
 	}
